@@ -21,6 +21,7 @@ import (
 	"sync/atomic"
 	"testing"
 	"testing/synctest"
+	"time"
 
 	pubsub "github.com/libp2p/go-libp2p-pubsub"
 	pubsubpb "github.com/libp2p/go-libp2p-pubsub/pb"
@@ -65,6 +66,11 @@ type c16Published struct {
 type c16PubSub struct {
 	mu    sync.Mutex
 	fresh []c16Published
+	// failID[message id] = number of coming publishes of that message that fail
+	// (armed by the simulator; keyed by message so that concurrent
+	// retransmissions cannot change who is hit)
+	failID map[uint64]int
+	failed int
 }
 
 type c16Publisher struct {
@@ -74,6 +80,18 @@ type c16Publisher struct {
 
 func (p *c16Publisher) Publish(ctx context.Context, data []byte, opts ...pubsub.PubOpt) error {
 	p.ps.mu.Lock()
+	if len(p.ps.failID) > 0 {
+		var m pb.BroadcastNetworkMessage
+		if err := proto.Unmarshal(data, &m); err == nil && len(m.Payload) == 8 {
+			id := binary.BigEndian.Uint64(m.Payload)
+			if p.ps.failID[id] > 0 {
+				p.ps.failID[id]--
+				p.ps.failed++
+				p.ps.mu.Unlock()
+				return fmt.Errorf("c16: injected publish failure")
+			}
+		}
+	}
 	p.ps.fresh = append(p.ps.fresh, c16Published{p.from, append([]byte(nil), data...)})
 	p.ps.mu.Unlock()
 	return nil
@@ -162,6 +180,10 @@ type c16Handler struct {
 
 	seen      map[[2]uint64]bool // (sender peer, seqno) handled
 	delivered map[[2]uint64]bool // delivered while registered and live
+
+	deadline    time.Time          // non-zero: the context ends by deadline on the fake clock
+	seenID      map[[2]uint64]bool // (sender peer, message id) handled
+	deliveredID map[[2]uint64]bool // (sender peer, message id) delivered while registered and live
 }
 
 type c16Send struct {
@@ -169,6 +191,7 @@ type c16Send struct {
 	peer   int
 	cancel context.CancelFunc
 	live   bool
+	faulty bool // a publish failure was armed for its first publish
 }
 
 type c16Env struct {
@@ -180,11 +203,19 @@ type c16Env struct {
 
 func c16Run(t *testing.T, r *verifsim.Run) {
 	tp := r.T
+	hv := 40
+	if r.Tier == "thorough" {
+		hv = 10
+	}
+	if tp.Chance("high-volume", 1, hv) {
+		c16HighVolume(r)
+		return
+	}
 	gates := verifsim.NewGates()
 	defer gates.ReleaseAll()
 	concurrent := tp.Chance("concurrent-mode", 1, 3)
 	nPeers := 2 + tp.Choose("peers", 2)
-	ps := &c16PubSub{}
+	ps := &c16PubSub{failID: map[uint64]int{}}
 	peers := make([]*c16Peer, nPeers)
 	peerOf := map[string]int{}
 	for i := range peers {
@@ -213,8 +244,20 @@ func c16Run(t *testing.T, r *verifsim.Run) {
 	}()
 
 	register := func(p int) *c16Handler {
-		h := &c16Handler{id: len(handlers), peer: p, seen: map[[2]uint64]bool{}, delivered: map[[2]uint64]bool{}}
-		h.ctx, h.cancel = context.WithCancel(context.Background())
+		h := &c16Handler{id: len(handlers), peer: p, seen: map[[2]uint64]bool{}, delivered: map[[2]uint64]bool{},
+			seenID: map[[2]uint64]bool{}, deliveredID: map[[2]uint64]bool{}}
+		switch tp.Weighted("handler-ctx", 3, 1, 1) {
+		case 0:
+			h.ctx, h.cancel = context.WithCancel(context.Background())
+		case 1: // ends by its own deadline
+			h.deadline = time.Now().Add(time.Duration(10+len(handlers)) * time.Minute)
+			h.ctx, h.cancel = context.WithDeadline(context.Background(), h.deadline)
+		case 2: // child of a parent that expires
+			h.deadline = time.Now().Add(time.Duration(10+len(handlers)) * time.Minute)
+			parent, pc := context.WithDeadline(context.Background(), h.deadline)
+			child, cc := context.WithCancel(parent)
+			h.ctx, h.cancel = child, func() { cc(); pc() }
+		}
 		if !concurrent {
 			if tp.Chance("slow-handler", 1, 3) {
 				h.slowEvery = 1 + tp.Choose("slow-every", 3)
@@ -313,6 +356,7 @@ func c16Run(t *testing.T, r *verifsim.Run) {
 					return false
 				}
 				h.seen[key] = true
+				h.seenID[[2]uint64{uint64(sp), c.id}] = true
 				if want, ok := idSeqno[sp][c.id]; ok && want != c.seqno {
 					r.Failf("C16:delivered-seqno-mismatch", "handler %d: message id %d of peer %d was published with seqno %d, delivered with %d", h.id, c.id, sp, want, c.seqno)
 					return false
@@ -324,8 +368,9 @@ func c16Run(t *testing.T, r *verifsim.Run) {
 
 	doSend := func(p int, burst int) {
 		type res struct {
-			id  uint64
-			err error
+			id     uint64
+			err    error
+			faulty bool
 		}
 		out := make([]res, burst)
 		var wg sync.WaitGroup
@@ -340,6 +385,16 @@ func c16Run(t *testing.T, r *verifsim.Run) {
 				strat = net.BackoffRetransmissionStrategy
 			}
 			out[b].id = id
+			if tp.Chance("first-publish-fails", 1, 6) {
+				// the first publish (and possibly the first retransmission) fails;
+				// the context stays alive, so later ticks publish the message
+				ps.mu.Lock()
+				ps.failID[id] = 1 + tp.Choose("more-failures", 2)
+				ps.mu.Unlock()
+				s.faulty = true
+				out[b].faulty = true
+				r.Fault("first-publish-fails")
+			}
 			if burst == 1 {
 				out[b].err = peers[p].ch.Send(ctx, &c16Msg{ID: id}, strat)
 			} else {
@@ -352,7 +407,7 @@ func c16Run(t *testing.T, r *verifsim.Run) {
 		}
 		wg.Wait()
 		for _, o := range out {
-			if o.err != nil {
+			if o.err != nil && !o.faulty {
 				r.Failf("C16:send-error", "Send of message id %d failed: %v", o.id, o.err)
 			}
 		}
@@ -385,8 +440,11 @@ func c16Run(t *testing.T, r *verifsim.Run) {
 				liveS = append(liveS, s)
 			}
 		}
-		kinds = append(kinds, "release", "cancel-handler", "cancel-send")
-		w = append(w, 0, 0, 0)
+		kinds = append(kinds, "release", "cancel-handler", "cancel-send", "retransmit-publish-fails")
+		w = append(w, 0, 0, 0, 0)
+		if len(liveS) > 0 {
+			w[7] = 1
+		}
 		if len(parked) > 0 {
 			w[4] = 4
 		}
@@ -434,6 +492,7 @@ func c16Run(t *testing.T, r *verifsim.Run) {
 			for _, h := range handlers {
 				if h.peer == to && !h.cancelReq && h.cancelAt == 0 {
 					h.delivered[[2]uint64{uint64(e.from), e.seqno}] = true
+					h.deliveredID[[2]uint64{uint64(e.from), e.id}] = true
 				}
 				if h.peer == to && h.seen[[2]uint64{uint64(e.from), e.seqno}] {
 					r.Probe("duplicate-copy-reached-handler-that-saw-it")
@@ -474,17 +533,41 @@ func c16Run(t *testing.T, r *verifsim.Run) {
 					r.Probe("cancel-while-handler-parked")
 				}
 			}
-			h.cancel()
-			h.cancelReq = true
-			synctest.Wait()
-			h.cancelledQ.Store(true)
-			r.Fault("cancel-handler")
-			r.Logf("cancel handler=%d", h.id)
+			if h.deadline.IsZero() {
+				h.cancel()
+				h.cancelReq = true
+				synctest.Wait()
+				h.cancelledQ.Store(true)
+				r.Fault("cancel-handler")
+				r.Logf("cancel handler=%d", h.id)
+			} else {
+				// the context ends by deadline: let the fake clock pass it
+				if d := time.Until(h.deadline); d >= 0 {
+					time.Sleep(d + time.Millisecond)
+					r.AddSim(int64(d), 0)
+				}
+				synctest.Wait()
+				for _, o := range handlers {
+					if !o.deadline.IsZero() && !o.cancelReq && !time.Now().Before(o.deadline) {
+						o.cancelReq = true
+						o.cancelledQ.Store(true)
+						r.Fault("handler-deadline-passed")
+						r.Logf("deadline passed handler=%d", o.id)
+					}
+				}
+			}
 		case "cancel-send":
 			s := liveS[tp.Choose("cancel-send", len(liveS))]
 			s.cancel()
 			s.live = false
 			r.Logf("cancel send id=%d", s.id)
+		case "retransmit-publish-fails":
+			s := liveS[tp.Choose("faulty-send", len(liveS))]
+			ps.mu.Lock()
+			ps.failID[s.id]++
+			ps.mu.Unlock()
+			r.Fault("retransmit-publish-fails")
+			r.Logf("next publish of id=%d fails", s.id)
 		}
 		synctest.Wait()
 		if !collect() || !observe() {
@@ -526,13 +609,122 @@ func c16Run(t *testing.T, r *verifsim.Run) {
 			}
 			r.Probe("delivered-but-unseen-without-sibling")
 		}
+		// every message handed to the channel while the handler was registered
+		// and live reaches it (once): nothing may shadow it
+		var missID [][2]uint64
+		for k := range h.deliveredID {
+			if !h.seenID[k] {
+				missID = append(missID, k)
+			}
+		}
+		sort.Slice(missID, func(i, j int) bool {
+			if missID[i][0] != missID[j][0] {
+				return missID[i][0] < missID[j][0]
+			}
+			return missID[i][1] < missID[j][1]
+		})
+		if len(missID) > 0 {
+			k := missID[0]
+			r.Failf("C16:delivered-message-never-handled", "live handler %d (peer %d) never saw message id %d of peer %d (seqno %d) although it was handed to the channel while the handler was registered and its context alive (%d such messages)", h.id, h.peer, k[1], k[0], idSeqno[k[0]][k[1]], len(missID))
+			return
+		}
 		if len(h.seen) > 0 {
 			r.Probe("handler-saw-messages")
 		}
 	}
+	ps.mu.Lock()
+	if ps.failed > 0 {
+		r.Probe("publish-failures-hit")
+	}
+	ps.mu.Unlock()
 	dupFiltered := 0
 	for _, h := range handlers {
 		dupFiltered += len(h.seen)
 	}
 	r.Logf("end envs=%d handlers=%d distinct-handled=%d", len(envs), len(handlers), dupFiltered)
+}
+
+// c16HighVolume: one long-lived handler, thousands of cheap distinct messages
+// pushed through processContainerMessage (quiescence only every few hundred,
+// below the handler buffer size), with early messages re-delivered in between
+// and at the very end -- a retransmission that arrives after many other
+// messages must still be recognised.
+func c16HighVolume(r *verifsim.Run) {
+	tp := r.T
+	ps := &c16PubSub{}
+	recv := c16NewPeer(0, ps, "c16hv")
+	senders := []*identity{c16NewIdentity(0x41), c16NewIdentity(0x63)}
+	idb := make([][]byte, len(senders))
+	idx := map[string]int{}
+	for i, sd := range senders {
+		b, err := sd.Marshal()
+		if err != nil {
+			panic(err)
+		}
+		idb[i] = b
+		idx[sd.id.String()] = i
+	}
+	ctx, cancel := context.WithCancel(context.Background())
+	defer cancel()
+	var mu sync.Mutex
+	count := map[[2]uint64]int{}
+	var dup *[3]uint64
+	recv.ch.Recv(ctx, func(m net.Message) {
+		k := [2]uint64{uint64(idx[m.TransportSenderID().String()]), m.Seqno()}
+		mu.Lock()
+		count[k]++
+		if count[k] == 2 && dup == nil {
+			dup = &[3]uint64{k[0], k[1], uint64(len(count))}
+		}
+		mu.Unlock()
+	})
+	total := 4300 + tp.Choose("hv-extra", 1500)
+	early := 1 + tp.Choose("hv-early", 5)
+	const batch = 300
+	send := func(i int) bool {
+		sd := i % len(senders)
+		pl := make([]byte, 8)
+		binary.BigEndian.PutUint64(pl, uint64(i))
+		err := recv.ch.processContainerMessage(senders[sd].id, &pb.BroadcastNetworkMessage{
+			Sender: idb[sd], Payload: pl, Type: []byte("c16/msg"), SequenceNumber: uint64(i/len(senders) + 1)})
+		if err != nil {
+			r.Failf("C16:valid-envelope-rejected", "high-volume: message %d rejected: %v", i, err)
+			return false
+		}
+		return true
+	}
+	r.Logf("high-volume total=%d early=%d", total, early)
+	r.Fault("high-volume")
+	redelivered := 0
+	for i := 0; i < total; i++ {
+		if !send(i) {
+			return
+		}
+		if i%batch == batch-1 {
+			if tp.Chance("hv-redeliver", 1, 4) {
+				send(tp.Choose("hv-which", early))
+				redelivered++
+			}
+			synctest.Wait()
+			r.Step()
+		}
+	}
+	synctest.Wait()
+	for e := 0; e < early; e++ {
+		send(e)
+		redelivered++
+	}
+	synctest.Wait()
+	mu.Lock()
+	defer mu.Unlock()
+	if dup != nil {
+		r.Failf("C16:duplicate-delivered", "high-volume: the handler saw (sender %d, seqno %d) twice; the second time after %d distinct messages on the same registration", dup[0], dup[1], dup[2])
+		return
+	}
+	if len(count) != total {
+		r.Failf("C16:delivered-message-never-handled", "high-volume: %d distinct messages handed to the channel, the handler saw %d", total, len(count))
+		return
+	}
+	r.Probe("high-volume-run")
+	r.Logf("high-volume done distinct=%d redelivered=%d", len(count), redelivered)
 }
